@@ -350,6 +350,76 @@ def run(chk, repo):
     chk.decide(good, "R2.1", "%s:ParallelFilter.__call__" % fmod.relpath,
                "source shared through " + (short(hubs[0]) if hubs else "<no thub>"),
                why="branches must share one read of the source: exactly len(self) tee copies", node=pc)
+    # the memory handed to a filter may be a Stream too (karplus_strong(memory=white_noise()), an endless generator):
+    # only its first items are wanted, so nothing may consume it as a whole
+    chk.rule("R2.5", "LinearFilter.__call__: the `memory` argument (possibly an endless iterable) is only read through a "
+                     "bounded view - takewhile / islice / zip with a range / a loop that breaks; no list(memory), "
+                     "tuple(memory), sorted(memory), [x for x in memory], len(list(memory)) ...")
+    lc = repo.find("lazy_filters", "LinearFilter.__call__")
+    BOUNDED = ("takewhile", "it.takewhile", "itertools.takewhile", "islice", "it.islice", "itertools.islice")
+    VIEWS = ("enumerate", "iter", "Stream", "xmap", "map", "xzip", "zip", "it.chain", "chain")
+
+    def _unbounded_view(e):
+        """is e `memory` itself or a lazy view of all of it?"""
+        if isinstance(e, ast.Name):
+            return e.id == "memory"
+        if isinstance(e, ast.Call) and unparse(e.func) in VIEWS and e.args:
+            if unparse(e.func) in ("xzip", "zip") and any(isinstance(a_, ast.Call) and unparse(a_.func) in ("xrange", "range")
+                                                          for a_ in e.args):
+                return False
+            return any(_unbounded_view(a_) for a_ in e.args)
+        if isinstance(e, (ast.GeneratorExp,)) and len(e.generators) == 1:
+            return _unbounded_view(e.generators[0].iter)
+        return False
+    tainted_until = None
+    top_ = docstring_free(lc.body)
+    # `memory` stops being the caller's object once it is re-bound to something built from a bounded view
+    sites25 = []
+    live = True
+
+    def _scan(stmts):
+        nonlocal live
+        for st in stmts:
+            if not live:
+                return
+            if isinstance(st, (ast.If,)):
+                for n in ast.walk(st.test):
+                    _judge(n)
+                _scan(st.body)
+                was = live
+                live = True if was or True else live
+                _scan(st.orelse)
+                continue
+            if isinstance(st, (ast.For, ast.While)):
+                has_break = any(isinstance(x, ast.Break) for x in ast.walk(st))
+                if isinstance(st, ast.For) and _unbounded_view(st.iter) and not has_break:
+                    sites25.append((st, "for %s in %s: ... (no break)" % (unparse(st.target), unparse(st.iter))))
+                for sub in st.body:
+                    for n in ast.walk(sub):
+                        _judge(n)
+                continue
+            for n in ast.walk(st):
+                _judge(n)
+            if isinstance(st, ast.Assign) and any(isinstance(t_, ast.Name) and t_.id == "memory" for t_ in st.targets):
+                v_ = st.value
+                if not (isinstance(v_, ast.Call) and isinstance(v_.func, ast.Name) and v_.func.id == "memory"):
+                    # memory = [.. bounded ..] / list(zero_pad(..)) ...: from here on it is the filter's own list
+                    if not _unbounded_view(v_):
+                        live = False
+
+    def _judge(n):
+        if isinstance(n, ast.Call) and unparse(n.func) in e2.Alternation.EAGER + ("len", "reversed") and n.args \
+                and _unbounded_view(n.args[0]):
+            sites25.append((n, short(n)))
+        elif isinstance(n, (ast.ListComp, ast.SetComp, ast.DictComp)) and _unbounded_view(n.generators[0].iter):
+            sites25.append((n, short(n)))
+        elif isinstance(n, ast.Starred) and _unbounded_view(n.value):
+            sites25.append((n, short(n)))
+    _scan(top_)
+    chk.decide(not sites25, "R2.5", "%s:LinearFilter.__call__" % fmod.relpath,
+               "memory read through bounded views only" if not sites25 else "whole-memory consumer: %s" % sites25[0][1],
+               why="an endless (or merely long) memory iterable is read to its end before the first output: the call "
+                   "never returns / reads far more than the lm items it needs", node=sites25[0][0] if sites25 else lc)
     chk.facts["stage_table"] = table
 
 
